@@ -148,6 +148,9 @@ def main(src):
         lineno = None
         classes[k] = {
             "name": cls.__name__,
+            "qualname": cls.__qualname__,
+            "importable": getattr(sys.modules.get(cls.__module__), cls.__qualname__.split(".")[0], None) is cls if "." not in cls.__qualname__
+            else False,
             "module": cls.__module__,
             "file": os.path.realpath(srcfile) if srcfile else None,
             "lineno": lineno,
